@@ -69,23 +69,106 @@ def transitions(ctx):
     for silent in (0, 1):
         pe = PEval(m, 'COEmcyReset')
         pe.record_sets = False
-        pe.store_filter = lambda k, f: False
+        pe.store_filter = lambda k, f: f == ('CO_EMCY', 'Err')
         trs = pe.run({'emcy': 1, 'silent': silent, 'call:COEmcySetErr': 1})
         bad = None
         for t in trs:
             names = set(t.call_names())
             if silent and ('COEmcySend' in names or 'COEmcyClr' in names):
                 bad = 'silent reset transmits'
-            if silent and 'COEmcyUpdate' not in names:
+            # (a reset that clears the status bytes itself is judged by the coverage rows below)
+            if silent and 'COEmcyUpdate' not in names and not t.stores():
                 bad = 'silent reset does not update register and counters'
             if not silent and 'COEmcyClr' not in names:
                 bad = 'non-silent reset does not clear through COEmcyClr'
         site = 'COEmcyReset silent=%d' % silent
         if bad:
             ctx.ob(P, 'RF2-emcy-transition', 'COEmcyReset', site, None)
-            ctx.find(P, 'RF2-emcy-transition', 'COEmcyReset', 'reset:%d' % silent, m.loc('COEmcyReset', m.funcs['COEmcyReset'].line), bad)
+            ctx.find(P + (['C20'] if silent else []), 'RF2-emcy-transition', 'COEmcyReset', 'reset:%d' % silent, m.loc('COEmcyReset', m.funcs['COEmcyReset'].line), bad)
         else:
             ctx.ob(P, 'RF2-emcy-transition', 'COEmcyReset', site, 'ok')
+    # coverage: every error number whose status bit is set is cleared (a scan may skip status bytes that are zero)
+    N = const_eval_name(m, 'CO_EMCY_N')
+    # the scan bound must be the number of error codes the setters accept (their clamp `err >= CO_EMCY_N`)
+    clamp = None
+    for hf in m.helper_closure('COEmcySetErr'):
+        for x in walk(m.funcs[hf].body):
+            if x.k == 'bin' and x.op in ('>=', '>') and strip(x.kids[0]).k == 'ref' and strip(x.kids[0]).refk == 'ParmVarDecl':
+                v = const_eval(x.kids[1], m)
+                if v is not None:
+                    clamp = v if x.op == '>=' else v + 1
+    if clamp is None:
+        ctx.broke(P, 'COEmcySetErr: clamp of the error number not found')
+    elif clamp != N:
+        ctx.ob(P, 'RF2-emcy-transition', 'COEmcyReset', 'scan bound', None)
+        ctx.find(P + ['C20'], 'RF2-emcy-transition', 'COEmcyReset', 'reset-bound', m.loc('COEmcyReset', m.funcs['COEmcyReset'].line),
+                 'COEmcyReset scans error numbers below %d but the setters accept numbers below %d' % (N, clamp))
+    else:
+        ctx.ob(P, 'RF2-emcy-transition', 'COEmcyReset', 'scan bound', 'equals the setters\' clamp (%d)' % N)
+    nbytes = (N + 7) // 8 if N else 0
+    for silent in (0, 1):
+        for pat in range(1, 1 << nbytes):
+            pe = PEval(m, 'COEmcyReset')
+            pe.record_sets = False
+            pe.store_filter = lambda k, f: f in (('CO_EMCY', 'Err'), ('CO_EMCY', 'Cnt'))
+            # the scan reads each status byte before the errors of that byte are cleared: the initial values stay valid
+            pe.keep_prefixes = ('emcy->Err',)
+            inputs = {'emcy': 1, 'silent': silent, 'call:COEmcySetErr': 1}
+            for k in range(nbytes):
+                inputs['emcy->Err[%d]' % k] = 0xFF if (pat >> k) & 1 else 0
+            trs = pe.run(inputs)
+            need = set(n for n in range(N) if (pat >> (n >> 3)) & 1)
+            bad = None
+            for t in trs:
+                got = set(c[2][1] for c in t.calls() if c[1] == ('COEmcySetErr' if silent else 'COEmcyClr'))
+                # a reset may also clear the status bytes directly; it then owns the per-class counters as well
+                direct = False
+                import re as _re
+                for e in t.stores():
+                    mo = _re.search(r'Err\[(\d+)\]$', e[1])
+                    if mo and e[2] is not None:
+                        direct = True
+                        got |= set(n for n in range(N) if (n >> 3) == int(mo.group(1)) and not (e[2] >> (n & 7)) & 1)
+                miss = sorted(need - got)
+                if miss:
+                    bad = 'active errors %s are not cleared' % miss[:8]
+                elif direct:
+                    ncnt = _extent(m, ('CO_EMCY', 'Cnt'))
+                    zeroed = set(int(_re.search(r'Cnt\[(\d+)\]$', e[1]).group(1)) for e in t.stores()
+                                 if _re.search(r'Cnt\[(\d+)\]$', e[1]) and e[2] == 0)
+                    left = sorted(set(range(ncnt)) - zeroed)
+                    if left:
+                        bad = 'the status bytes are cleared directly but the error-class counters %s keep their values: the ' \
+                              'error register still shows these classes after the reset' % left
+            site = 'COEmcyReset silent=%d status bytes %s' % (silent, ['%02X' % inputs['emcy->Err[%d]' % k] for k in range(nbytes)])
+            if bad:
+                ctx.ob(P, 'RF2-emcy-transition', 'COEmcyReset', site, None)
+                ctx.find(P + ['C20'] if silent else P, 'RF2-emcy-transition', 'COEmcyReset', 'reset-coverage:%d' % silent,
+                         m.loc('COEmcyReset', m.funcs['COEmcyReset'].line), '%s: %s' % (site, bad))
+            else:
+                ctx.ob(P, 'RF2-emcy-transition', 'COEmcyReset', site, 'every active error number is cleared')
+
+
+def _extent(m, fld):
+    from canalyze.ir import array_extent
+    for (fn_, ty, cty) in m.records.get(fld[0], ()):
+        if fn_ == fld[1]:
+            return array_extent(cty) or 0
+    return 0
+
+
+def const_eval_name(m, name):
+    # value of an object-like macro / enumerator used as the loop bound of COEmcyReset
+    g = m.cfg('COEmcyReset')
+    for lp in g.loops:
+        for c in lp.cond_nodes:
+            x = strip(g.nodes[c].x)
+            if x.k == 'bin' and x.op == '<':
+                v = const_eval(x.kids[1], m)
+                if v is not None:
+                    return v
+    from canalyze.front import AnalysisBroken
+    raise AnalysisBroken('COEmcyReset: scan loop with a constant bound not found')
 
 
 def send_gates(ctx):
